@@ -82,7 +82,7 @@ def names_at(path, offs, bgzf):
     return out, ok
 
 
-def battery(d, tag, nodes, links, recs, reads, gs, fs, block):
+def battery(d, tag, nodes, links, recs, reads, gs, fs, block, eol="\n"):
     """run every GAF/graph consuming command under one configuration; returns {cmd: (status, value, resolved)}"""
     res = {}
     bg = gs == "bgzf"
@@ -91,7 +91,7 @@ def battery(d, tag, nodes, links, recs, reads, gs, fs, block):
     raw = os.path.join(d, f"{tag}_raw.gfa" + (".gz" if fs == "gz" else ""))
     write_text(raw, gfa_text(nodes, links, False), "gz" if fs == "gz" else "plain")
     gaf = os.path.join(d, f"{tag}.gaf" + (".gz" if bg else ""))
-    write_text(gaf, "\n".join(recs) + "\n", gs, block=block)
+    write_text(gaf, "\n".join(recs) + eol, gs, block=block)      # eol "": the last record is not newline-terminated
     fa = os.path.join(d, f"{tag}.fa")
     with open(fa, "w") as f:
         for n, s in reads:
@@ -207,7 +207,7 @@ def run_session(job):
             recs, reads = r2, rd2
             align_line_start(recs, 65536)
         cfgs = [("plain", "gfa"), ("bgzf", "gfa"), ("plain", "gz"), ("bgzf", "gz")]
-        per = [battery(d, f"c{k}", nodes, links, recs, reads, gs, fs, block) for k, (gs, fs) in enumerate(cfgs)]
+        per = [battery(d, f"c{k}", nodes, links, recs, reads, gs, fs, block, "" if seed % 3 == 1 else "\n") for k, (gs, fs) in enumerate(cfgs)]
         cases = []
         nblocks = len(bgzf_blocks(os.path.join(d, "c1.gaf.gz")))
         for cmd in per[0]:
